@@ -1,7 +1,103 @@
 import Driver.Common
+import Log4rsModel.Json.Spec
+/-
+C12 driver.
+  case : level(1..5)  message  target  module_path?  file?  line?  thread-name?  mdc
+         (mdc = insertion sequence `k;v,k;v,…`, later insertions of a key overwrite)
+  obs  : `time=<str> tid=<nat> order=<keys in log_mdc::iter order> indep=ok line=<str>`
+         (one blank-separated field; `time`, `tid`, `order` are environment facts the harness
+          observed and hands back so that the model is fed the same)
+-/
 namespace Driver.C12
-open Driver
+open Log4rs.Proto Log4rs.Json Driver
 
-def handle : Handler := fun _ _ => badCase "unimplemented"
+def decPair (s : String) : Option (List Char × List Char) :=
+  match splitOnChar ';' s with
+  | [k, v] => match decStr k, decStr v with
+    | some k, some v => some (k, v)
+    | _, _ => none
+  | _ => none
+
+/-- `HashMap::insert` semantics over the insertion sequence: one entry per key, last value wins -/
+def mdcMap (ins : List (List Char × List Char)) : List (List Char × List Char) :=
+  ins.foldl (fun acc kv => if acc.any (·.1 == kv.1) then acc.map (fun e => if e.1 == kv.1 then kv else e) else acc ++ [kv]) []
+
+def kvOf (obs : String) : List (String × String) :=
+  (splitOnChar ' ' obs).filterMap fun f =>
+    match splitOnChar '=' f with
+    | [k, v] => some (k, v)
+    | _ => none
+
+def needsEscape (c : Char) : Bool := c = '"' || c = '\\' || c.toNat < 0x20
+
+def strTags (s : List Char) : List String :=
+  (if s.any (· = '"') then ["quote"] else [])
+  ++ (if s.any (· = '\\') then ["backslash"] else [])
+  ++ (if s.any (fun c => c = '\n' || c = '\r') then ["newline"] else [])
+  ++ (if s.any (fun c => c = '\x08' || c = '\x0c' || c = '\t') then ["ctl-short"] else [])
+  ++ (if s.any (fun c => c.toNat < 0x20 && !(c = '\n' || c = '\r' || c = '\x08' || c = '\x0c' || c = '\t')) then ["ctl-u00"] else [])
+  ++ (if s.any (· = '\x7f') then ["del"] else [])
+  ++ (if s.any (fun c => c.toNat = 0x2028 || c.toNat = 0x2029) then ["ls-ps"] else [])
+  ++ (if s.any (fun c => 0x80 ≤ c.toNat && c.toNat < 0x10000) then ["bmp-nonascii"] else [])
+  ++ (if s.any (fun c => 0x10000 ≤ c.toNat) then ["astral"] else [])
+
+def dedup (xs : List String) : List String := xs.foldl (fun acc x => if acc.contains x then acc else acc ++ [x]) []
+
+def tagsOf (thread : Option (List Char)) (r : Record) (mdc : List (List Char × List Char)) : List String :=
+  let strs : List (String × List Char) :=
+    [("msg", r.message), ("target", r.target)]
+    ++ (match r.modulePath with | some s => [("module", s)] | none => [])
+    ++ (match r.file with | some s => [("file", s)] | none => [])
+    ++ (match thread with | some s => [("thread", s)] | none => [])
+    ++ mdc.map (fun kv => ("mdckey", kv.1)) ++ mdc.map (fun kv => ("mdcval", kv.2))
+  let special := dedup (strs.flatMap fun p => strTags p.2)
+  let where_ := dedup (strs.filterMap fun p => if (strTags p.2).isEmpty then none else some ("special-in-" ++ p.1))
+  let shape :=
+    [ "level-" ++ String.ofList r.level.name,
+      "opt-" ++ (if r.modulePath.isSome then "M" else "m") ++ (if r.file.isSome then "F" else "f")
+        ++ (if r.line.isSome then "L" else "l"),
+      (if thread.isSome then "thread-named" else "thread-null"),
+      (if mdc.isEmpty then "mdc-0" else if mdc.length = 1 then "mdc-1" else "mdc-many") ]
+    ++ (if strs.any (fun p => p.2.isEmpty) then ["empty-string"] else [])
+  let trivial := special.isEmpty && mdc.isEmpty
+  shape ++ special ++ where_ ++ (if trivial then ["trivial"] else [])
+
+def handle : Handler := fun cas obs =>
+  match cas with
+  | [lv, msg, target, mp, file, line, thread, mdc] =>
+    match (decNat lv).bind Level.ofNat?, decStr msg, decStr target, decOpt decStr mp, decOpt decStr file,
+          decOpt decNat line, decOpt decStr thread, mapM? decPair (decList ',' mdc) with
+    | some level, some message, some target, some modulePath, some file, some line, some thread, some ins =>
+      let r : Record := { level, message, modulePath, file, line, target }
+      let map := mdcMap ins
+      let tags := tagsOf thread r map
+      let obsStr := " ".intercalate obs
+      let kv := kvOf obsStr
+      match kv.lookup "time", (kv.lookup "tid").bind decNat, kv.lookup "order", kv.lookup "line" with
+      | some timeS, some tid, some orderS, some lineS =>
+        match decStr timeS, mapM? decStr (decList ',' orderS), decStr lineS with
+        | some time, some order, some implLine =>
+          -- the observed iteration order must be a permutation of the map's keys
+          let isPerm := order.length = map.length && noDupKeys order && order.all (fun k => map.any (·.1 == k))
+          let mdcEnv := order.filterMap fun k => (map.lookup k).map (k, ·)
+          let env : Env := { time, thread, threadId := tid, mdc := mdcEnv }
+          let model := "time=" ++ timeS ++ " tid=" ++ toString tid ++ " order="
+            ++ (if isPerm then orderS else "NOT-A-PERMUTATION-OF-THE-MDC-KEYS") ++ " indep=ok line="
+            ++ encStr (jsonLine env r)
+          let spec :=
+            if !isPerm then "FAIL:mdc keys iterated are not the keys inserted;sig=C12/mdc-keys"
+            else match specLine env r implLine with
+              | .ok => "ok"
+              | .fail clause => "FAIL:" ++ clause ++ ";sig=C12/" ++ clause
+          { model, spec, tags }
+        | _, _, _ => badCase "observation"
+      | _, _, _, _ =>
+        -- PANIC / ERR / non-UTF-8 output: there is no line to read back
+        let env : Env := { time := [], thread, threadId := 0, mdc := map }
+        { model := "time=_ tid=0 order=" ++ encList "," (map.map fun kv => encStr kv.1) ++ " indep=ok line="
+            ++ encStr (jsonLine env r),
+          spec := "FAIL:no line emitted (" ++ obsStr.take 40 ++ ");sig=C12/no-line", tags }
+    | _, _, _, _, _, _, _, _ => badCase "fields"
+  | _ => badCase "arity"
 
 end Driver.C12
